@@ -102,7 +102,9 @@ int Entry::Rename(const char* new_name, unsigned flags)
   if (D != NULL)
     ret = gd_rename(D->D, E.field, new_name, flags);
 
-  if (ret) {
+  /* the object follows the rename when the library has done it, or when there
+   * is no library to ask */
+  if (D == NULL || !ret) {
     if (E.field == NULL) {
       E.field = strdup(new_name);
     } else {
